@@ -92,3 +92,72 @@ def run(F, rep, rule):
                     detail.append("mixed lazy/eager form")
     rep.ob(rule, "get_net_dependencies raises a dependency's capture depth only after comparing it with the block's supplies", verdict,
            "; ".join(sorted(set(detail))), gnd.span, fn=gnd.path, key=rule + "|get_net_dependencies")
+
+
+
+def cycle_boundary(F, rep, rule):
+    """`Dependency::eq_allow_callbacks` reads `cycles_needed > 0` as "this dependency comes out of a nested *function*": only then may a plain
+    local `x: T` of the enclosing function satisfy a dependency on `x: CallbackVariable(T)`.  Inside one function the captured `x` and a local
+    `x` are two variables, so the depth must count function boundaries and nothing else: every walk that raises it
+    (`get_net_dependencies(_, true)`, directly or through a `net_dependencies` impl that calls it so) is requested by the `dependencies()` of
+    a node whose `Compile` impl opens a function (`CompiledItem::Function`).  An `if` / `while` / `from` body that raises the depth lets a
+    local assigned *after* the block cancel the block's read of the captured variable (run-time `load before store`)."""
+    eq = F.fn("compiler::ast::Dependency::eq_allow_callbacks")
+    gnd = F.fn("compiler::ast::get_net_dependencies")
+    if eq is None or gnd is None:
+        raise AnchorMissing("Dependency::eq_allow_callbacks / get_net_dependencies")
+    reads_depth = False
+    for bi, si, dst, rv, s_ in eq.assigns():
+        for o in mir.rvalue_operands(rv):
+            pl = mir.op_place(o)
+            if pl and any(e[0] == "field" and e[2] == "cycles_needed" for e in pl.get("p", [])):
+                reads_depth = True
+    if not reads_depth:
+        rep.ob(rule, "eq_allow_callbacks keys the callback rule on the capture depth", "undecided",
+               "cycles_needed is not read by eq_allow_callbacks: the rule below does not apply as written", eq.span, fn=eq.path, key=rule + "|armed")
+        return
+    c = F.crates["compiler"]
+    # function-like node types: Compile::compile builds a CompiledItem::Function
+    opens_fn = set()
+    for f in c.fns:
+        m = re.match(r"<(compiler::[\w:#]+) as compiler::ast::Compile>::compile$", f.path)
+        if not m:
+            continue
+        for bi, si, dst, rv, s_ in f.assigns():
+            if "agg" in rv and rv["agg"].get("adt", "").endswith("ast::CompiledItem") and rv["agg"].get("v") == "Function":
+                opens_fn.add(m.group(1))
+    if len(opens_fn) < 3:
+        raise AnchorMissing("Compile impls that build CompiledItem::Function (found %s)" % sorted(opens_fn))
+    # walks that raise the depth
+    raising = {}
+    for f in c.fns:
+        for cl in f.calls_to("compiler::ast::get_net_dependencies"):
+            a = cl.args[-1] if cl.args else None
+            if isinstance(a, dict) and "const" in a and a["const"].get("int") == "1":
+                raising[f.path] = cl
+            elif not (isinstance(a, dict) and "const" in a):
+                raising[f.path] = cl      # a computed flag: treated as possibly raising
+    n = 0
+    for rp, cl in sorted(raising.items()):
+        m = re.match(r"<(compiler::[\w:#]+) as compiler::ast::Dependencies>::net_dependencies$", rp)
+        owner = m.group(1) if m else None
+        if owner in opens_fn:
+            rep.ob(rule, "%s raises the capture depth and is itself a function-like node" % mir.short(rp), "ok", "", cl.span, fn=rp,
+                   key="%s|raiser|%s" % (rule, mir.short(rp)))
+            n += 1
+            continue
+        # a shared body type (Block, ClassBody): judged at each node that asks for the raised walk
+        callers = []
+        for f in c.fns:
+            if f.calls_to(rp) and f.path != rp:
+                callers.append(f)
+        for f in sorted(callers, key=lambda x: x.path):
+            m2 = re.match(r"<(compiler::[\w:#]+) as compiler::ast::Dependencies>::(dependencies|net_dependencies|supplies)$", f.path)
+            t = m2.group(1) if m2 else None
+            n += 1
+            ok = t in opens_fn
+            rep.ob(rule, "%s asks %s for a depth-raising walk and opens a function" % (mir.short(f.path), mir.short(rp)), "ok" if ok else "violated",
+                   "" if ok else "%s does not compile to a function of its own: its body is part of the enclosing function, where a dependency on a captured "
+                   "`x` (CallbackVariable(T), depth now > 0) is then cancelled by a local `x: T` assigned anywhere in that function" % (mir.short(t) if t else mir.short(f.path)),
+                   f.calls_to(rp)[0].span, fn=f.path, key="%s|%s" % (rule, mir.short(f.path)))
+    rep.floor(rule + " requests for a depth-raising walk judged", n, 4)
